@@ -103,6 +103,9 @@ func (d *SFDecoder) SFDecode() (*SFDatagram, error) {
 
 	for i := uint32(0); i < datagram.SamplesNo; i++ {
 		sfTypeFormat, sfDataLength, err := d.getSampleInfo()
+		if err == errNoneEnterpriseStandard {
+			continue
+		}
 		if err != nil {
 			return nil, err
 		}
@@ -198,14 +201,14 @@ func (d *SFDecoder) getSampleInfo() (uint32, uint32, error) {
 	sfTypeEnterprise = sfType >> 12 // 20 bytes enterprise
 	sfTypeFormat = sfType & 0xfff   // 12 bytes format
 
-	// supports standard sflow data
+	if err = read(d.reader, &sfDataLength); err != nil {
+		return 0, 0, errDataLengthUnknown
+	}
+
+	// supports standard sflow data: skip a vendor-specific sample by its length
 	if sfTypeEnterprise != 0 {
 		d.reader.Seek(int64(sfDataLength), 1)
 		return 0, 0, errNoneEnterpriseStandard
-	}
-
-	if err = read(d.reader, &sfDataLength); err != nil {
-		return 0, 0, errDataLengthUnknown
 	}
 
 	return sfTypeFormat, sfDataLength, nil
